@@ -491,6 +491,10 @@ func (s *Storage) SaveServiceGCSafePoint(ssp *ServiceSafePoint) error {
 	}
 
 	key := path.Join(gcPath, "safe_point", "service", ssp.ServiceID)
+	if key != path.Join(gcPath, "safe_point", "service")+"/"+ssp.ServiceID {
+		// path.Join cleans the key: an id like ".." or "x/../gc_worker" would name another record
+		return errors.New("service id of service safepoint must be a clean path")
+	}
 	value, err := json.Marshal(ssp)
 	if err != nil {
 		return err
@@ -505,6 +509,10 @@ func (s *Storage) RemoveServiceGCSafePoint(serviceID string) error {
 		return errors.New("cannot remove service safe point of gc_worker")
 	}
 	key := path.Join(gcPath, "safe_point", "service", serviceID)
+	if key != path.Join(gcPath, "safe_point", "service")+"/"+serviceID {
+		// path.Join cleans the key: an id like ".." or "x/../gc_worker" would name another record
+		return errors.New("service id of service safepoint must be a clean path")
+	}
 	return s.Remove(key)
 }
 
